@@ -64,7 +64,75 @@ def _job(job):
     return out
 
 
+def _job_sizes(job):
+    """implementation only: one huge update vs the same samples in chunks (size thresholds inside kernels),
+    and more than 64 tiny updates vs one batch (code paths that fold / compact accumulated chunks)"""
+    name, trials = job
+    from ..catalogue import entry
+    import random
+    e = entry(name)
+    out = []
+    for cfg, kind, n, seed in trials:
+        rng = random.Random(seed)
+        try:
+            if kind == "huge":
+                parts = [e.gen_batch(rng, cfg, n // 4) for _ in range(4)]
+                whole = e.concat(cfg, parts)
+                if whole is None:
+                    out.append(None)
+                    continue
+                a, b = _compute(e, cfg, [whole]), _compute(e, cfg, parts)
+            else:
+                parts = [e.gen_batch(rng, cfg, max(e.min_batch, 1)) for _ in range(n)]
+                whole = e.concat(cfg, parts)
+                if whole is None:
+                    out.append(None)
+                    continue
+                a, b = _compute(e, cfg, [whole]), _compute(e, cfg, parts)
+            if isinstance(a, T) and isinstance(b, T) and a.tag == b.tag == "err":
+                out.append(None)
+            else:
+                d = close(a, b, e.tol)
+                out.append(f"{kind} n={n}: one update with everything vs {len(parts)} updates: {d}" if d else None)
+        except Exception as ex:
+            out.append(f"harness exception {type(ex).__name__}: {ex}")
+    return out
+
+
+def sizes_stream(ctx):
+    s = ctx.stream("one huge update / many tiny updates vs the same samples re-batched (implementation only)")
+    jobs = []
+    for e in entries():
+        if not e.batching_free or e.family == "window":
+            continue
+        cfgs = e.configs(ctx.rng, ctx.quick)
+        trials = []
+        for t in range(ctx.n(2, 8)):
+            cfg = cfgs[ctx.rng.randrange(len(cfgs))]
+            trials.append((cfg, "huge", ctx.rng.choice([33000, 66000]), ctx.rng.randrange(10 ** 9)))
+            trials.append((cfg, "tiny", ctx.rng.choice([70, 130]), ctx.rng.randrange(10 ** 9)))
+        jobs.append((e.name, trials))
+    res = sandbox.run_jobs(_job_sizes, jobs, timeout=ctx.n(170, 900), workers=12)
+    for (name, trials), (status, val) in zip(jobs, res):
+        bad = None
+        if status == "timeout":
+            ctx.notes.append(f"sizes stream: {name} timed out (skipped)")
+            continue
+        if status != "ok":
+            bad = {"observed": f"worker {status}: {val}"}
+            val = []
+        for (cfg, kind, n, seed), d in zip(trials, val):
+            s.case((name, repr(cfg), kind, n, seed), True, sample={"class": name, "cfg": cfg, "kind": kind, "n": n})
+            s.count("kind:" + kind)
+            if d and bad is None:
+                bad = {"cfg": cfg, "kind": kind, "n": n, "seed": seed, "observed": d}
+        if bad:
+            ctx.violation("failing-input", name, {"check": "rebatch_sizes", "class": name, **bad, "broken": f"tie:corr:{name}"},
+                          finding_id=core.match_finding("C12", name, str(bad["observed"])))
+
+
 def run(ctx):
+    sizes_stream(ctx)
     mix = {"upd": 12, "merge": 1, "compute": 4, "reset": 0.5, "prep": 1}
     streams.hist_corr(ctx, mix=mix, name="history-correspondence(update-heavy)", nhist=ctx.n(6, 60), nops=(6, 12, 20), maxn=5)
     s = ctx.stream("re-batching / re-ordering of one sample multiset (implementation only)")
